@@ -628,14 +628,26 @@ def return_variants_from(body, start_bb, _depth=0):
     reachable from start_bb (a call of a local closure/function into the return place
     is resolved to that callee's own return variants)"""
     out = set()
-    for b in body.reachable(start_bb):
+    reach = body.reachable(start_bb)
+    for b in reach:
         for s in body.blocks[b]['stmts']:
             if s['p'][0] == 0 and not s['p'][1]:
                 rv = s['rv']
                 if rv['k'] == 'agg' and rv.get('ak') == 'adt':
                     out.add(rv['variant'])
                 elif rv['k'] == 'use':
-                    out.add('copy')
+                    # the value of another local (the return place of a spliced helper): what was put into it on the way from start_bb
+                    l = op_local(rv['op'])
+                    ds = [d for d in body.defs().get(l, []) if d[0] in reach and b in body.reachable(d[0])] if l is not None and not (op_place(rv['op']) or [0, [1]])[1] else []
+                    if not ds:
+                        out.add('copy')
+                    for d in ds:
+                        if d[2] == 'assign' and d[3]['rv']['k'] == 'agg' and d[3]['rv'].get('ak') == 'adt':
+                            out.add(d[3]['rv']['variant'])
+                        elif d[2] == 'call' and d[3].matches(FROM_RESIDUAL):
+                            out.add('Err')
+                        else:
+                            out.add('copy')
         c = body.call_at(b)
         if c is not None and c.dest[0] == 0 and not c.dest[1]:
             if c.matches(FROM_RESIDUAL):
